@@ -72,6 +72,26 @@ pub fn replay(pid: &'static str, v: &Value) -> Vec<Failure> {
     }
     let hex = v.get("hex").and_then(|h| h.as_str()).unwrap_or("");
     let Some(buf) = bits::unhex(hex) else { return out };
+    if v.get("kind").and_then(|k| k.as_str()) == Some("frame_nostd") && buf.len() >= 11 {
+        // derived velocity in the alloc-only build
+        let mut w = crate::configs::Worker::spawn();
+        let a = w.ask(&["R".into(), format!("F {}", bits::hex(&buf))]);
+        let line = a[1].lines().find(|l| l.starts_with("CALC ")).unwrap_or("CALC <missing>").to_string();
+        let want = refdec::velocity_calc(&buf[4..11]);
+        let got_none = line == "CALC None";
+        let ok = match want {
+            None => got_none,
+            Some((h, sp, vr)) => {
+                let inner = line.trim_start_matches("CALC Some((").trim_end_matches("))");
+                let p: Vec<&str> = inner.split(", ").collect();
+                p.len() == 3 && p[0].parse::<f64>().map(|g| (g - h).abs() <= 1e-4 && (0.0..360.0).contains(&g)).unwrap_or(false) && p[1].parse::<f64>().map(|g| (g - sp).abs() <= 1e-9 * sp.max(1.0)).unwrap_or(false) && p[2].parse::<i64>().map(|g| g == vr).unwrap_or(false)
+            }
+        };
+        if !ok {
+            out.push(Failure { sig: format!("C07/no_std/me.calc/TC19.{}", buf[4] & 7), msg: format!("alloc-only build: calculate() gives `{line}`, the model gives {want:?}"), replay: v.clone() });
+        }
+        return out;
+    }
     let eval = eval_for(pid);
     for (sig, msg) in eval(&buf) {
         out.push(Failure { sig, msg, replay: v.clone() });
@@ -216,6 +236,24 @@ pub fn run_c09(ctx: &Ctx) -> ! {
                 }
             }
         }
+        // the complete product subtype x emergency x identity code for type 28 (2 x 64 x 8192 frames)
+        for se in 0..64u64 {
+            for code in 0..8192u32 {
+                if (code as usize + se as usize) % WORKERS != w {
+                    continue;
+                }
+                for df in [17u8, 18] {
+                    let mut b = gen_frame_df(&mut rng, df);
+                    let me = gen_me(&mut rng, 28);
+                    b[4..11].copy_from_slice(&me);
+                    set(&mut b, 32 + 6, 6, se);
+                    set(&mut b, 32 + 12, 13, code as u64);
+                    st.nontrivial_enum += 1;
+                    run_case(st, "fields", &b, &eval);
+                }
+            }
+            st.class("type 28 full product");
+        }
         // all 64 subtype x emergency combinations
         for se in 0..64u64 {
             if se as usize % WORKERS != w {
@@ -236,6 +274,7 @@ pub fn run_c09(ctx: &Ctx) -> ! {
     });
     st.exhaustive.push("all 8192 identity codes x {DF5, DF21, DF17/TC28, DF18/TC28}".into());
     st.exhaustive.push("all 64 subtype x emergency-state values x {DF17, DF18}".into());
+    st.exhaustive.push("the complete product subtype x emergency x identity code (64 x 8192) for type 28 under DF17 and DF18".into());
     finish(
         ctx,
         st,
@@ -497,6 +536,69 @@ pub fn run_c07(ctx: &Ctx) -> ! {
             }
         }
     });
+    // (f) the same derived velocity in the alloc-only (no_std) build of the decoder: a sample of
+    // ground-speed reports is decoded by the worker process that links the library without std
+    {
+        use crate::configs::Worker;
+        let mut rng = ctx.rng(77, 0);
+        let mut worker = Worker::spawn();
+        let n = ctx.tier.pick(24_000usize, 400_000);
+        let mut frames: Vec<Vec<u8>> = Vec::with_capacity(n);
+        for i in 0..n {
+            let mut b = vel_frame(&mut rng, 17, if i % 2 == 0 { 1 } else { 2 });
+            let ew = *rng.pick(&[0u64, 1, 2, 3, 100, 1022, 1023]);
+            let ns = *rng.pick(&[0u64, 1, 2, 3, 100, 1022, 1023]);
+            if i % 3 != 0 {
+                set(&mut b, 32 + 15, 10, ew);
+                set(&mut b, 32 + 26, 10, ns);
+            }
+            set(&mut b, 32 + 14, 1, (i as u64 >> 1) & 1);
+            set(&mut b, 32 + 25, 1, (i as u64 >> 2) & 1);
+            if i % 5 != 0 {
+                let vr = 1 + rng.below(511);
+                set(&mut b, 32 + 38, 9, vr);
+            }
+            bits::fix_parity(&mut b, 0);
+            frames.push(b);
+        }
+        for chunk in frames.chunks(512) {
+            let reqs: Vec<String> = chunk.iter().map(|b| format!("F {}", bits::hex(b))).collect();
+            let answers = worker.ask(&reqs);
+            for (b, a) in chunk.iter().zip(answers.iter()) {
+                st.eval();
+                st.nontrivial_enum += 1;
+                let want = refdec::velocity_calc(&b[4..11]);
+                let line = a.lines().find(|l| l.starts_with("CALC ")).unwrap_or("CALC <missing>");
+                let got: Option<(f64, f64, i64)> = if line == "CALC None" {
+                    None
+                } else {
+                    let inner = line.trim_start_matches("CALC Some((").trim_end_matches("))");
+                    let p: Vec<&str> = inner.split(", ").collect();
+                    if p.len() == 3 {
+                        match (p[0].parse::<f64>(), p[1].parse::<f64>(), p[2].parse::<i64>()) {
+                            (Ok(h), Ok(sp), Ok(v)) => Some((h, sp, v)),
+                            _ => Some((f64::NAN, f64::NAN, i64::MIN)),
+                        }
+                    } else {
+                        Some((f64::NAN, f64::NAN, i64::MIN))
+                    }
+                };
+                let ok = match (want, got) {
+                    (None, None) => true,
+                    (Some((h, sp, v)), Some((gh, gs, gv))) => (h - gh).abs() <= 1e-4 && (sp - gs).abs() <= 1e-9 * sp.max(1.0) && v == gv && (0.0..360.0).contains(&gh),
+                    _ => false,
+                };
+                if !ok {
+                    st.fail(Failure {
+                        sig: format!("C07/no_std/me.calc/TC19.{}", b[4] & 7),
+                        msg: format!("alloc-only build: calculate() gives `{line}`, the model gives {want:?} (frame {})", bits::hex(b)),
+                        replay: json!({"kind": "frame_nostd", "hex": bits::hex(b)}),
+                    });
+                }
+            }
+        }
+        st.class_n("derived velocity in the alloc-only build", n as u64);
+    }
     st.exhaustive.push("all 2^22 (E/W sign, E/W, N/S sign, N/S) words x subtypes {1,2}".into());
     st.exhaustive.push("all 2^11 (source, sign, rate) x 8 subtypes x {DF17,DF18}".into());
     st.exhaustive.push("all 2^8 GNSS sign/difference codes x 8 subtypes".into());
